@@ -25,22 +25,22 @@ import (
 // ---------------------------------------------------------------- replayable input
 
 type Name struct {
-	CN      string     `json:"cn,omitempty"`
-	Serial  string     `json:"serial,omitempty"`
-	C       []string   `json:"c,omitempty"`
-	O       []string   `json:"o,omitempty"`
-	OU      []string   `json:"ou,omitempty"`
-	L       []string   `json:"l,omitempty"`
-	ST      []string   `json:"st,omitempty"`
-	Street  []string   `json:"street,omitempty"`
-	Postal  []string   `json:"postal,omitempty"`
-	DC      []string   `json:"dc,omitempty"`
-	Email   []string   `json:"email,omitempty"`
-	OrgID   []string   `json:"orgid,omitempty"`
-	JL      []string   `json:"jl,omitempty"`
-	JST     []string   `json:"jst,omitempty"`
-	JC      []string   `json:"jc,omitempty"`
-	Extra   []ExtraATV `json:"extra,omitempty"`
+	CN     string     `json:"cn,omitempty"`
+	Serial string     `json:"serial,omitempty"`
+	C      []string   `json:"c,omitempty"`
+	O      []string   `json:"o,omitempty"`
+	OU     []string   `json:"ou,omitempty"`
+	L      []string   `json:"l,omitempty"`
+	ST     []string   `json:"st,omitempty"`
+	Street []string   `json:"street,omitempty"`
+	Postal []string   `json:"postal,omitempty"`
+	DC     []string   `json:"dc,omitempty"`
+	Email  []string   `json:"email,omitempty"`
+	OrgID  []string   `json:"orgid,omitempty"`
+	JL     []string   `json:"jl,omitempty"`
+	JST    []string   `json:"jst,omitempty"`
+	JC     []string   `json:"jc,omitempty"`
+	Extra  []ExtraATV `json:"extra,omitempty"`
 }
 type ExtraATV struct {
 	OID   []int  `json:"oid"`
@@ -433,7 +433,6 @@ func mustSPKI(pub crypto.PublicKey) []byte {
 	}
 	return b
 }
-
 
 func defaultSigAlg(k crypto.PublicKey) x509.SignatureAlgorithm {
 	switch pk := k.(type) {
